@@ -23,6 +23,7 @@ package config
 //@ macro optsKnown(opts) = forall(k, 0, len(opts), optRank(dyn(opts[k])) >= 1 && opts[k].val > 0 && (isType(opts[k], "*ndp.RouteInformation") ==> prefValid(as(opts[k], "*ndp.RouteInformation").Preference)))
 
 //@ func (Interface).RouterAdvertisement
+//@   opt nobreak [C01]
 //@   requires P1: ifiOK(ifi)
 //@   requires T1 [C04]: ghost.fwdFresh && ghost.fwdName == ifi.Name && forwarding == ghost.fwdVal
 //@   assigns new heap(ndp.RouterAdvertisement), new mem(ndp.Option), new heap(ndp.PrefixInformation), new heap(ndp.RouteInformation), new heap(ndp.RecursiveDNSServer), new heap(ndp.DNSSearchList), new heap(ndp.MTU), new heap(ndp.LinkLayerAddress), new mem(netip.Addr), new mem(netip.Prefix), new mem(system.IP), new mem(system.Route), new mem(config.Misconfiguration), ghost.clockRead, ghost.now, ghost.lastAddrs, ghost.lastRoutes
